@@ -2,6 +2,7 @@ import NflowsModel.Core.Structure
 import NflowsModel.Lemmas.Glue
 import NflowsModel.Lemmas.Utils
 import NflowsModel.Lemmas.SplineTotal
+import NflowsModel.Lemmas.RQWhole
 import Mathlib.Tactic
 /-!
 # C17 — out-of-domain inputs are rejected, in-domain inputs never fail
@@ -110,6 +111,15 @@ theorem rq_forward_in_domain_total (e : Float → ℝ) (c : RQCfg) (uw uh ud : L
     (heps : 0 < e c.eps) (hx0 : e c.box.left ≤ x) (hx1 : x ≤ e c.box.right) :
     ∃ r, rqSpline (NF.realX e) c uw uh ud false x = .ok r :=
   SplineTotal.rq_forward_total e c uw uh ud x hK hlenh hlend hgW hgH hmW0 hcW hmWK hmH0 hcH hmHK hlr hdlr hbt hdbt heps hx0 hx1
+
+/-- the same, with the value: the program returns exactly the closed forms of the bin its search selected -/
+theorem rq_forward_returns_bin (e : Float → ℝ) (c : RQCfg) (uw uh ud : List ℝ) (hv : RQWhole.RQValid e c uw uh ud)
+    (x : ℝ) (hx0 : e c.box.left ≤ x) (hx1 : x ≤ e c.box.right) :
+    rqSpline (NF.realX e) c uw uh ud false x
+      = .ok (RQWhole.binVal e c uw uh ud (RQWhole.idx e c uw x) x, RQWhole.binLd e c uw uh ud (RQWhole.idx e c uw x) x) ∧
+    RQWhole.idx e c uw x < uw.length :=
+  ⟨RQWhole.exec_eq_bin hv x hx0 hx1,
+   ((RQWhole.search_spec hv).1 x (by rw [RQWhole.xs_zero hv]; exact hx0) (by rw [RQWhole.xs_last hv]; exact hx1)).1⟩
 
 /-! non-vacuity: concrete accepted / rejected inputs in binary64 -/
 example : expT floatX true (0.0 : Float) = .error .outsideDomain := by decide +kernel
